@@ -14,10 +14,11 @@ EXTENDS Vec, SequencesExt, FiniteSetsExt
 
 VARIABLES v_lvl, v_idx
 
-Modes == {"plain", "with", "only", "withonly"}
+Modes == {"plain", "with", "only", "withonly", "withvar", "withvaronly"}     \* withvar: the hash is a variable of the host
 Sites == {"top", "loop", "block", "macro"}
-HasWith(m) == m \in {"with", "withonly"}
-IsOnly(m) == m \in {"only", "withonly"}
+HasWith(m) == m \in {"with", "withonly", "withvar", "withvaronly"}
+WithVar(m) == m \in {"withvar", "withvaronly"}
+IsOnly(m) == m \in {"only", "withonly", "withvaronly"}
 OverSpecs == {<<>>, <<"p">>, <<"q">>, <<"p", "q">>, <<"pP">>, <<"pP", "qP">>}     \* xP = override calling parent()
 OName(o) == SubSeq(o, 1, 1)
 OPar(o) == Len(o) = 2
@@ -25,15 +26,15 @@ Complement(ov) == CASE ov = <<>> -> <<"p", "q">> [] ov = <<"p">> -> <<"q">> [] o
                     [] ov = <<"p", "q">> -> <<>> [] ov = <<"pP">> -> <<"qP">> [] OTHER -> <<"p">>
 
 Configs ==
-  { [kind |-> "include", mode |-> m, site |-> s, target |-> t, over |-> <<>>, hostp |-> hp, twice |-> FALSE]
-      : m \in Modes, s \in Sites, t \in {"tv", "ts", "te", "tp"}, hp \in BOOLEAN }
+  { [kind |-> "include", mode |-> m, site |-> s, target |-> t, over |-> <<>>, hostp |-> hp, twice |-> tw]
+      : m \in Modes, s \in Sites, t \in {"tv", "ts", "te", "tp", "tq"}, hp \in BOOLEAN, tw \in BOOLEAN }
   \cup
   { [kind |-> "embed", mode |-> m, site |-> s, target |-> t, over |-> ov, hostp |-> hp, twice |-> tw]
-      : m \in Modes, s \in Sites, t \in {"te", "tp"}, ov \in OverSpecs, hp \in BOOLEAN, tw \in BOOLEAN }
+      : m \in Modes, s \in Sites, t \in {"te", "tp", "tq"}, ov \in OverSpecs, hp \in BOOLEAN, tw \in BOOLEAN }
 
 WithHash == HashE(<< <<NameE("w"), IntE(3)>>, <<NameE("a"), IntE(9)>> >>)
 X(c, ov) ==
-  LET with == IF HasWith(c.mode) THEN WithHash ELSE NoE IN
+  LET with == IF WithVar(c.mode) THEN NameE("wh") ELSE IF HasWith(c.mode) THEN WithHash ELSE NoE IN
   IF c.kind = "include" THEN IncludeS(StrE(c.target), with, IsOnly(c.mode))
   ELSE EmbedS(StrE(c.target), with, IsOnly(c.mode),
               [q \in 1..Len(ov) |-> [name |-> OName(ov[q]),
@@ -43,8 +44,9 @@ Constructs(c) == IF c.twice THEN <<X(c, c.over), Text("+"), X(c, Complement(c.ov
 
 Host(c) ==
   LET xs == Constructs(c)
-      pre == <<SetS("a", IntE(1)), SetS("b", IntE(2))>> \o (IF c.hostp THEN <<BlockS("p", <<Text("HP")>>)>> ELSE <<>>)
-      post == <<Text(";"), PrintS(NameE("a")), PrintS(NameE("n"))>>
+      pre == <<SetS("a", IntE(1)), SetS("b", IntE(2)), SetS("wh", WithHash)>> \o (IF c.hostp THEN <<BlockS("p", <<Text("HP")>>)>> ELSE <<>>)
+      post == <<Text(";"), PrintS(NameE("a")), PrintS(NameE("n")), Text("|"), PrintS(AttrDot(NameE("wh"), "a")),
+                PrintS(AttrDot(NameE("wh"), "w")), PrintS(AttrDot(NameE("wh"), "n"))>>
   IN CASE c.site = "top" -> pre \o <<Text("H1")>> \o xs \o <<Text("H2")>> \o post
        [] c.site = "loop" -> pre \o <<Text("H1"), ForS("", "v", ArrE(<<IntE(1), IntE(2)>>), NoE, xs \o <<Text(",")>>, <<>>, FALSE), Text("H2")>> \o post
        [] c.site = "block" -> pre \o <<Text("H1"), BlockS("main", xs), Text("H2")>> \o post
@@ -57,6 +59,9 @@ Targets ==
   @@ ("te" :> <<ExtendsS(StrE("tb")), BlockS("p", <<Text("ep["), PrintS(NameE("a")), Text("]")>>)>>)
   @@ ("tb" :> <<Text("B("), BlockS("p", <<Text("bp")>>), Text("|"), BlockS("q", <<Text("bq")>>), Text(")")>>)
   @@ ("tp" :> <<Text("T["), BlockS("p", <<Text("tp"), PrintS(NameE("a"))>>), Text("|"), BlockS("q", <<Text("tq")>>), Text("]")>>)
+  (* tq: blocks, then assignments and an import at the top level of the embedded template *)
+  @@ ("tq" :> <<Text("T["), BlockS("p", <<Text("tp"), PrintS(NameE("a"))>>), Text("|"), BlockS("q", <<Text("tq")>>), Text("]"),
+                SetS("a", StrE("X")), SetS("n", StrE("N")), ImportS(StrE("tv"), "mm"), Text("<"), PrintS(NameE("a")), PrintS(NameE("n")), Text(">")>>)
 Templates(c) == ("h" :> Host(c)) @@ Targets
 
 (* ---- declarative expectation ---- *)
@@ -73,6 +78,7 @@ One(c, ov, iter) ==
   CASE c.target = "tv" -> "<" \o VA(c) \o "|" \o VB(c) \o "|" \o VW(c) \o "|" \o VV(c, iter) \o ">"
     [] c.target = "ts" -> "<XN>"
     [] c.target = "te" -> "B(" \o Blk(c, ov, "p", "ep[" \o VA(c) \o "]") \o "|" \o Blk(c, ov, "q", "bq") \o ")"
+    [] c.target = "tq" -> "T[" \o Blk(c, ov, "p", "tp" \o VA(c)) \o "|" \o Blk(c, ov, "q", "tq") \o "]<XN>"
     [] OTHER -> "T[" \o Blk(c, ov, "p", "tp" \o VA(c)) \o "|" \o Blk(c, ov, "q", "tq") \o "]"
 Both(c, iter) == IF c.twice THEN One(c, c.over, iter) \o "+" \o One(c, Complement(c.over), iter) ELSE One(c, c.over, iter)
 Expected(c) ==
@@ -80,7 +86,7 @@ Expected(c) ==
   \o (CASE c.site = "loop" -> "H1" \o Both(c, 1) \o "," \o Both(c, 2) \o "," \o "H2"
         [] c.site = "macro" -> "H1M[" \o Both(c, 0) \o "]H2"
         [] OTHER -> "H1" \o Both(c, 0) \o "H2")
-  \o ";1"                                  \* the host's a is still 1 and n is still undefined
+  \o ";1|93"                               \* the host's a is still 1, n still undefined, and its hash wh untouched
 
 Cases == SetToSeq(Configs)
 Picked == 1..Len(Cases)
